@@ -664,6 +664,7 @@ func (t *fnTrans) moduleCall(in ssa.Instruction, callee *ssa.Function, cc *ssa.C
 }
 
 func (t *fnTrans) invokeCall(in ssa.Instruction, cc *ssa.CallCommon, res ssa.Value, tgts []*ssa.Function) {
+	t.event("called", nameTag("callee:"+cc.Method.Name()), "")
 	if t.contractInvoke(in, cc, res, tgts) {
 		return
 	}
